@@ -308,6 +308,7 @@ pub fn run(tier: Tier, replay_file: Option<Value>) -> ! {
     let mut transitions = 0u64;
     let mut replays_checked = 0u64;
     let mut failures_seen: BTreeSet<String> = BTreeSet::new();
+    let mut nondeterministic: Vec<Vec<String>> = vec![];
     for d in 0..depth {
         let mut cases: Vec<Vec<String>> = vec![];
         for (h, info) in &frontier {
@@ -366,9 +367,33 @@ pub fn run(tier: Tier, replay_file: Option<Value>) -> ! {
                 let v: Value = serde_json::from_slice(b).unwrap_or(Value::Null);
                 replays_checked += 1;
                 if !seen.contains(v["canon"].as_str().unwrap_or("")) {
-                    crate::engine::report::machinery_fail(&format!("replay of {:?} is not deterministic", h));
+                    nondeterministic.push((*h).clone());
                 }
             }
+        }
+        if !nondeterministic.is_empty() {
+            // A history that does not replay to the same state: either the harness does not own some choice
+            // (machinery failure) or the shell's `wait`/reaping depends on timing, which is what the property
+            // forbids. Replay each such history 6 more times and evaluate the invariants on every replay.
+            let rb: Vec<Vec<u8>> = nondeterministic.iter().flat_map(|c| (0..6).map(move |_| json!({"events": c}).to_string().into_bytes())).collect();
+            let ro = pool::run(&cfg, &rb);
+            for (k, o) in ro.iter().enumerate() {
+                let h = &nondeterministic[k / 6];
+                if let Outcome::Ok(b) = o {
+                    let v: Value = serde_json::from_slice(b).unwrap_or(Value::Null);
+                    for viol in v["violations"].as_array().cloned().unwrap_or_default() {
+                        let oracle = viol["oracle"].as_str().unwrap_or("").to_string();
+                        if failures_seen.insert(format!("{oracle}|{}", h.join(","))) {
+                            rep.fail(Failure { case: h.join(", "), tags: vec!["timing-dependent-replay".into()], expected: "invariant holds".into(), observed: viol["detail"].as_str().unwrap_or("").to_string(), oracle });
+                        }
+                    }
+                }
+            }
+            if rep.failures.is_empty() {
+                crate::engine::report::machinery_fail(&format!("replay of {:?} is not deterministic and no replay violates an invariant", nondeterministic[0]));
+            }
+            rep.cap(&format!("search stopped at depth {}: {} histories replay differently from run to run (violations reported)", d + 1, nondeterministic.len()));
+            break;
         }
         eprintln!("  [C17] depth {} : {} transitions, {} new states", d + 1, cases.len(), next.len());
         frontier = next;
